@@ -124,7 +124,7 @@ def _run_property(prop, tier, seed, cfg, sdir, t0):
     baseline = load_json(os.path.join(VERIF, 'baseline', 'obligations.json'), {})
     units = cfg.get('units', [])
     seeds = [None] if tier == 'quick' else [None, seed * 3 + 1, seed * 3 + 2]
-    rlimit = None if tier == 'quick' else 60
+    rlimit = 30 if tier == 'quick' else 90
     obligations = []   # dicts: id, fn, unit, src, kind, status
     failures = []      # dicts from classify, + unit
     tool = []
@@ -218,6 +218,23 @@ def _run_property(prop, tier, seed, cfg, sdir, t0):
             if x not in trusted:
                 trusted.append(x)
         cmds.extend(kani_info['cmds'])
+    # ---- bounded stand-ins for functions outside the verifier's reach (labelled bounded, never counted as proved) -------
+    import replay_run
+    bounded_info = []
+    bounded_fail = []
+    fams_always = list(cfg.get('bounded', []))
+    if tier == 'thorough':
+        for fam in replay_run.FAMILIES.get(prop, []):
+            if fam not in fams_always:
+                fams_always.append(fam)
+    if fams_always:
+        bcases, bfails, berr = replay_run.failing_for(prop, fams_always)
+        if berr:
+            tool.append('[bounded] ' + berr)
+        for fam in fams_always:
+            nf = len([f for f in bfails if f.get('family') == fam])
+            bounded_info.append({'family': fam, 'cases': bcases.get(fam, 0), 'failing': nf, 'bounded': True})
+        bounded_fail = bfails
     # ---- baseline: every obligation that existed when the contracts were written must still be generated
     want = baseline.get(prop, [])
     have = set(o['id'] for o in obligations)
@@ -242,13 +259,51 @@ def _run_property(prop, tier, seed, cfg, sdir, t0):
             'bounded_obligations': bounded,
             'rewrites_applied': rewrites[:400], 'dropped_from_extracted_text': dropped[:100], 'source_hashes': hashes[:200],
             'seeds_run': len(seeds), 'unstable': unstable,
+            'bounded_checks': bounded_info, 'bounded_checks_bound': replay_run.BOUNDS if bounded_info else '',
+            'bounded_checks_note': 'bounded stand-ins run the real crate on a finite pool against an executable mirror of the oracle; they are '
+                                   'NOT counted in obligations/discharged' if bounded_info else '',
             'explanation': cfg.get('explanation', ''),
         },
         'assumptions': ASSUMPTIONS + cfg.get('assumptions', []) + ((kani_info or {}).get('assumptions', [])),
         'wall_s': round(wall, 2), 'violations': 0,
     }
     # ---- verdict ------------------------------------------------------------------------------------
+    def report_concrete(cases_list, why):
+        os.makedirs(os.path.join(VERIF, 'replays'), exist_ok=True)
+        f = cases_list[0]
+        path = os.path.join(VERIF, 'replays', '%s-bounded-%s.json' % (prop, re.sub(r'[^\w.]+', '_', f.get('hint', 'case'))))
+        with open(path, 'w') as fh:
+            json.dump({'property': prop, 'failed_obligation': 'bounded:%s:%s' % (f.get('family'), f.get('hint')), 'function': f.get('hint'),
+                       'unit': 'bounded stand-in (%s)' % f.get('family'), 'verifier_messages': [why], 'verifier_output': why,
+                       'failing_input': f['input'], 'observed': f['observed'], 'expected': f['expected'], 'family': f.get('family'),
+                       'all_failing_cases': cases_list[:10], 'replay_note': 'concrete input run on the real crate (replay/), bound: ' + replay_run.BOUNDS}, fh, indent=1)
+        print('VIOLATION property=%s replay=%s obligation=bounded:%s:%s (concrete failing input on the real code; %s)' % (prop, path, f.get('family'), f.get('hint'), why))
+
+    if bounded_fail and not (tool or lost or not_run or unstable):
+        # a function outside the verifier's reach (bounded stand-in) fails on a concrete input
+        listed = [k for k in kf['finding'] if k['property'] == prop and any(k.get('text', '').find(f['input']) >= 0 for f in bounded_fail)]
+        remaining = [f for f in bounded_fail if not any(k.get('text', '').find(f['input']) >= 0 for k in listed)]
+        for k in listed:
+            print('KNOWN-FINDING: property=%s %s' % (prop, k['text']))
+        if remaining and not failures:
+            report_concrete(remaining, 'bounded stand-in for code outside the verifier\'s reach')
+            ev['violations'] = 1
+            write_evidence(prop, ev)
+            return 1
     if tool or lost or not_run or unstable or n_obl == 0:
+        # the deductive step cannot decide: fall back to the bounded stand-in; a concrete failing input is still a violation
+        und = (tool + lost + not_run + unstable)[:50]
+        fcases, fmine, ferr = replay_run.failing_for(prop)
+        ev['coverage']['undecided'] = und
+        ev['coverage']['bounded_checks'] = [{'family': k, 'cases': v, 'failing': len([f for f in fmine if f.get('family') == k]), 'bounded': True} for k, v in fcases.items()]
+        ev['coverage']['bounded_checks_bound'] = replay_run.BOUNDS
+        if fmine:
+            for t in und[:6]:
+                print('UNDECIDED(deductive) property=%s %s' % (prop, t[:300]))
+            report_concrete(fmine, 'deductive step UNDECIDED (%s); bounded stand-in' % (und[0][:160] if und else 'no obligations'))
+            ev['violations'] = 1
+            write_evidence(prop, ev)
+            return 1
         for t in tool:
             print('UNDECIDED property=%s tool-limit: %s' % (prop, t[:400]))
         for w in lost:
